@@ -528,4 +528,30 @@ def includeErrorObj (ieh : Option Bool) (e : ExcObj) : ErrTrace :=
     else ⟨none, .raised e, false⟩
   | none => ⟨none, .raised e, false⟩
 
+/-! ## Contexts that share one buffer stack (`Context._copy`, `_locals`, `_clean_inheritance_tokens`)
+
+With `<%inherit>` (and includes, namespaces) the callable runs on a *copy* of the caller's `Context`; the copy
+holds the **same list object** in `_buffer_stack`.  `_render_error` must therefore replace the content of that
+list in place (`context._buffer_stack[:] = [fresh]`): every alias – in particular the context `_render` pops the
+result from – then sees the one fresh buffer with the error page. -/
+
+/-- a heap of buffer-stack objects; a context refers to one of them -/
+structure CtxHeap where
+  stacks : List (List (Nat × Str))
+  deriving Repr, Inhabited
+
+structure CtxRef where
+  stack : Nat               -- which list object `_buffer_stack` is
+  deriving DecidableEq, Repr, Inhabited
+
+def CtxHeap.stackOf (h : CtxHeap) (c : CtxRef) : List (Nat × Str) := (h.stacks[c.stack]?).getD []
+
+/-- `Context._copy()`: a new context object, the same `_buffer_stack` list -/
+def CtxRef.copy (c : CtxRef) : CtxRef := ⟨c.stack⟩
+
+/-- `_render_error` under `format_exceptions`: the list the failing context refers to is emptied and gets one
+    fresh buffer holding the page (slice assignment – no new list object) -/
+def renderErrorHeap (h : CtxHeap) (failing : CtxRef) (page : Str) : CtxHeap :=
+  ⟨h.stacks.set failing.stack [(0, page)]⟩
+
 end MakoModel.Target
